@@ -131,3 +131,58 @@ func Harness_C08_dispatcher_wiring() {
 	verifAssert("C18.after-purge-goes-upstream", s2 == StatusFetching)
 	verifReach("C08.wiring.end")
 }
+
+// overlapStore: a faithful store during whose first Set another key's write-through runs to
+// completion (what a slow disk or network write looks like to a busy cache): the bytes handed to
+// the store must not change while the store is using them.
+type overlapStore struct {
+	faithfulStore
+	during  func()
+	changed bool
+	calls   int
+}
+
+func (s *overlapStore) Set(key []byte, data []byte, ttl time.Duration) error {
+	s.calls++
+	if f := s.during; f != nil {
+		s.during = nil
+		before := append([]byte{}, data...)
+		f()
+		if len(before) != len(data) {
+			s.changed = true
+		}
+		for i := 0; i < len(before) && i < len(data); i++ {
+			if before[i] != data[i] {
+				s.changed = true
+			}
+		}
+	}
+	return s.faithfulStore.Set(key, data, ttl)
+}
+
+// Two keys are stored at overlapping times (B's whole write-through runs while A's store.Set is in
+// progress).  The record the store ends up holding for A is A's: same status code and expiry, not
+// B's — buffers used to encode a record are not shared between entries in a way that lets one
+// entry's encoding overwrite another's.
+func Harness_C08_overlapping_saves() {
+	st := &overlapStore{}
+	stB := &faithfulStore{}
+	a := NewHTTPStoreCache([]byte("GET h /a"), st)
+	b := NewHTTPStoreCache([]byte("GET h /b"), stB)
+	sa, _ := a.Get()
+	sb, _ := b.Get()
+	verifAssume(sa == StatusFetching && sb == StatusFetching)
+	st.during = func() {
+		b.Cacheable(&HTTPResponse{StatusCode: 201, Header: http.Header{}, RawBody: []byte("bb")}, 50)
+		verifReach("C08.overlap.nested")
+	}
+	a.Cacheable(&HTTPResponse{StatusCode: 200, Header: http.Header{}, RawBody: []byte("a")}, 100)
+	verifAssert("C08.overlap.bytes-stable-while-the-store-uses-them", !st.changed)
+	got := NewHTTPCache()
+	err := got.FromBytes(st.data)
+	verifAssert("C08.overlap.record-of-a-key-is-its-own", err == nil && got.status == StatusHit && got.response != nil && got.response.StatusCode == 200 && got.expiredAt == a.expiredAt)
+	gotB := NewHTTPCache()
+	errB := gotB.FromBytes(stB.data)
+	verifAssert("C08.overlap.record-of-the-other-key-is-its-own", errB == nil && gotB.response != nil && gotB.response.StatusCode == 201 && gotB.expiredAt == b.expiredAt)
+	verifReach("C08.overlap.end")
+}
